@@ -30,6 +30,8 @@ import traceback
 VERIF = os.path.dirname(os.path.dirname(os.path.abspath(__file__)))
 LEAN = os.path.join(VERIF, "lean")
 REPO = os.environ.get("OQUPY_REPO", "/repo")
+if REPO not in sys.path:
+    sys.path.insert(0, REPO)      # `import oqupy` resolves to the tree under test
 EVID = os.path.join(VERIF, "evidence")
 REPLAYS = os.path.join(VERIF, "replays")
 CORPUS = os.path.join(VERIF, "corpus")
